@@ -384,6 +384,30 @@ pub async fn run_behaviour(id: &Value, b: &Value) -> Vec<Value> {
                             _ => {}
                         }
                     }
+                    // a root the model refuses (not doubly signed, older, ...) ends the model's cycle; a client
+                    // that takes it anyway must find a valid successor and top-level metadata under its keys
+                    let has_ts = hist[i + 1..j].iter().any(|f| f["ev"] == "ts");
+                    if let Some(lr) = hist[i + 1..j].iter().rev().find(|f| f["ev"] == "root") {
+                        let o = lr["o"].as_str().unwrap_or("");
+                        if !has_ts && lr["s"]["k"] == "root" && o != "adopt" && o != "stop" && o != "MaxSize" {
+                            let next = lr["req"][1].as_u64().unwrap_or(0) + 1;
+                            let mut succ = lr["s"].clone();
+                            succ["v"] = json!(lr["s"]["v"].as_u64().unwrap_or(0) + 1);
+                            succ["signers"] = lr["s"]["rk"].clone();
+                            succ["len"] = json!(1);
+                            let name = req_name(&ctx, &json!(["root", next]));
+                            if !files.iter().any(|(n, _)| *n == name) {
+                                files.push((name, succ.clone()));
+                            }
+                            rootdoc = succ;
+                            if tsd.is_none() && !files.iter().any(|(n, _)| n.ends_with("timestamp.json")) {
+                                let d = json!({"k":"ts","v":1,"exp":rootdoc["exp"],"len":1,"b":1,"signers":rootdoc["ts"],
+                                               "pin":{"v":1,"h":{"k":"none"},"len":0}});
+                                files.push((req_name(&ctx, &json!(["ts", 0])), d.clone()));
+                                tsd = Some(d);
+                            }
+                        }
+                    }
                     let cons = rootdoc["cons"].as_bool().unwrap_or(false);
                     if let Some(tsv) = &tsd {
                         let pv = tsv["pin"]["v"].as_u64().unwrap_or(0);
